@@ -26,6 +26,19 @@ FIRST = {  # outcome of the first run, before any strengthening, and what was st
  "C11/m4": ("missed by quick", "watch stream: files with an old modification time moved or linked into the directory"),
  "C16/m4": ("missed by quick", "names stream: after write / remove / remove again, the same Spec is written again under the same name (no refresh in between)"),
  "C18/m4": ("missed by C18 (C05 reported it)", "C18's judge uses the library's observed acceptance (not the model's); typed Specs for every defect kind; mount defects combined with mount types"),
+ "C02/m5": ("missed by C02 (the package-level functions were only exercised under C20)", "stream `defaultapi` (cdi.Configure/Refresh/GetErrors/InjectDevices in a child process against the methods of an explicit cache) shared by C02, C04 and C20"),
+ "C04/m5": ("missed by C04 (same)", "same `defaultapi` stream, with nil OCI specs and empty requests"),
+ "C06/m5": ("missed: the protocol did not carry an empty, non-nil map to the library", "version stream: `emptyann` flag re-creates the empty map on the library side"),
+ "C09/m5": ("missed: the protocol did not carry empty, non-nil lists", "codec stream: `emptylists` flag; the driver expects `unwritable` for Specs the model rejects"),
+ "C10/m5": ("missed", "fswrite stream: the target is a bind mount of a file on a 16 KiB tmpfs, in a private mount namespace (`unshare -m`)"),
+ "C10/m6": ("missed (C12's race build reports the data race)", "fswrite stream: a second writer of another name runs a complete write at each named point of the first (pinned through the `verif` hook)"),
+ "C11/m5": ("missed", "watch stream: a Spec file is moved into a directory of 1200 Specs at 20/50/80 % of the measured scan time of the cache being created"),
+ "C11/m6": ("missed", "cache stream `permrestore`: watched directories lose read permission, a refresh is triggered through another directory, permission returns (unprivileged child); run under C11 and C13"),
+ "C13/m5": ("missed by C13 (C04 reported it)", "C13 also judges injections; the refresh case spawns a late-directories injection of every listed device"),
+ "C13/m6": ("missed by C13 (C11 reported it)", "watch stream also under C13, with files in error repaired by rename / unlink / rewrite"),
+ "C14/m6": ("missed", "purity stream: a second Spec file with Spec-level edits; the same request repeated 24 times on one cache"),
+ "C17/m5": ("missed by C17 (C19 reported it)", "the validate-tool cases of the cli stream also run under C17"),
+ "C19/m6": ("missed", "cli stream: fixed layouts with two files of one directory in conflict"),
 }
 rows = []
 for d in sorted(glob.glob("/verif/seeded/C*/m*")):
